@@ -11,6 +11,7 @@
 -/
 import Jence.Model.Types
 import Jence.Lemmas.NoKing
+import Jence.Lemmas.ApplyRefine
 namespace Jence.Props.C02
 open Jence
 
@@ -82,6 +83,17 @@ theorem made_move_is_rules_successor (g g' : Game) (b : Board) (m : Move) (all :
   obtain ⟨f1, f2, f3⟩ := makeCore_fields g g' m hmk
   obtain ⟨c1, c2⟩ := makeCore_clocks g g' m hmk
   exact ⟨makeCore_wf g g' m b wf fits hmk, f1, f2, f3, c1, c2⟩
+
+/-- **T2.2** Refinement to the independent rules specification (`Spec.Rules`, mailbox board, coordinate arithmetic, no
+    flags): for every generated move of a consistent position that `make_search_move` accepts, the rules position
+    denoted by the engine's new position (`Spec.abs`, the map the run-time oracle prints as FEN) is `Spec.apply` of the
+    rules position denoted by the old one - all six FEN fields. The clocks are `u8`/`u16` in the engine and unbounded in
+    the specification, hence the two bounds. -/
+theorem made_move_refines_rules (g g' : Game) (b : Board) (m : Move) (all : Bool)
+    (wf : Wf g b) (nk : NoKingCapture g) (hm : m ∈ generateMoves g all) (hmk : makeCore g m = some g')
+    (hh : g.halfMoves < 255) (hf : g.fullMoves < 65535) :
+    Spec.abs g' = Spec.apply (Spec.abs g) (smove m) :=
+  apply_refines wf (gen_fits wf nk all m hm) (gen_flags wf all m hm) hmk hh hf
 
 /-- what consistency says in the engine's own terms: the piece sets are pairwise disjoint -/
 theorem wf_disjoint (g : Game) (b : Board) (wf : Wf g b) (p q t : Nat) (hp : p < 12) (hq : q < 12) (ht : t < 64) (hne : p ≠ q) :
